@@ -231,3 +231,86 @@ class HLB(Harness):
             out.ob("no_record_between_searches", not rec)
         out.ob("incumbent_u_is_u_best", O.rows_eq(np.asarray(_raw(self_.u)), np.asarray(_raw(self_.u_best)), 0.0))
         return out
+
+
+class HLBNoisy(HLB):
+    """The loop body for a noisy target at a concrete poll iteration `it` >= 1 with the real IterationHistory: the
+    record block followed by the re-estimation / swap block.  params: D, it (1..3), k0"""
+    name = "H-LB/noisy"
+    stubs_doc = HLB.stubs_doc + ("_re_evaluate_history_: writes fresh symbolic fval / fsd >= 0 for every recorded iterate (the GP re-estimation)",)
+    assumptions_doc = ("search_count == search_n_try (a poll takes place); recorded iterates 0..it-1 arbitrary symbolic; incumbent tuple consistent at the loop head",)
+
+    def case(self, eng):
+        import pybads.utils.iteration_history as ihmod
+        p = self.p
+        D, k0, it = p["D"], p.get("k0", -2), p["it"]
+        opts = cached_options(D, {})
+        opts["noise_size"] = 1.0
+        ntry = int(opts["search_n_try"])
+        rb = Rebinder(eng.concrete, stubs=stubs())
+        body = self.unit(rb)
+        B = rb.cls(badsmod.BADS)
+        IH = rb.cls(ihmod.IterationHistory)
+        opts["max_fun_evals"] = 10 ** 6
+        opts["max_iter"] = 10 ** 6
+        s = B.__new__(B)
+        s.D, s.options, s.logger, s.logging_action = D, opts, LoggerStub(), [""]
+        gp = type("GP", (), {"get_hyperparameters": lambda g, as_array=True: np.zeros(3), "__deepcopy__": lambda g, memo: g})()
+        H = IH(["u", "x", "yval", "fval", "fsd", "mesh_size", "search_mesh_size", "gp_hyp_full", "gp", "func_count"])
+        hu = [sym_array(eng, f"hu{i}", (D,)) for i in range(it)]
+        hy = [eng.real(f"hy{i}") for i in range(it)]
+        for i in range(it):
+            H.record("u", hu[i], i); H.record("yval", hy[i], i); H.record("fval", eng.real(f"hf{i}"), i)
+            fs_ = eng.real(f"hs{i}")
+            if not eng.concrete:
+                eng.assume(fs_.e >= 0)
+            H.record("fsd", fs_, i); H.record("gp", gp, i); H.record("gp_hyp_full", np.zeros(3), i)
+        s.iteration_history = H
+        s.u = sym_array(eng, "u", (D,))
+        s.u_best = s.u.copy()
+        s.yval, s.fval, s.fsd = eng.real("yval"), eng.real("fval"), eng.real("fsd")
+        if not eng.concrete:
+            eng.assume(s.fsd.e >= 0)
+        s.mesh_size_integer, s.mesh_size = k0, 2.0 ** k0
+        s.search_success, s.search_spree, s.restarts, s.mesh_overflows = 0, 0, 0, 0
+        fl = type("FL", (), {})()
+        fl.func_count, fl.Y, fl.X_flag = 40, np.zeros((50, 1)), np.ones(50, bool)
+        s.function_logger = fl
+        s.optim_state = dict(iter=None, search_count=ntry, search_size_integer=min(0, 2 * k0 - 10), tol_mesh=2.0 ** -19,
+                             uncertainty_handling_level=1, lb=np.full((1, D), -3.0), ub=np.full((1, D), 3.0))
+        s.var_transf = type("VT", (), {"inverse_transf": lambda v, u: u})()
+        polled = {}
+
+        def poll(gp_):
+            # the poll may move the incumbent to a freshly evaluated point (pair kept consistent, H-PS)
+            if eng.choose("p_moves"):
+                s.u = sym_array(eng, "pu", (D,))
+                s.u_best = s.u.copy()
+                s.yval, s.fval = eng.real("py"), eng.real("pf")
+            s.mesh_size_integer -= 1
+            s.mesh_size = 2.0 ** s.mesh_size_integer
+            s.optim_state["mesh_size"] = s.mesh_size
+            polled["u"], polled["y"] = snap(np.asarray(_raw(s.u))), s.yval
+
+        def reeval(gp_):
+            n = len(H.get("u"))
+            for i in range(n):
+                H.record("fval", eng.fresh_real("rf"), i)
+                v = eng.fresh_real("rs")
+                if not eng.concrete:
+                    eng.assume(v.e >= 0)
+                H.record("fsd", v, i)
+        s._poll_step_ = poll
+        s._search_step_ = lambda g: (None, 0, 0, 0, g)
+        s._re_evaluate_history_ = reeval
+        out = Out()
+        R = body(s, dict(is_finished=False, poll_iteration=it, gp=gp, loop_iter=0, hyp_dict={}, timer=None, Ns_gp=0, sn2hpd=0))
+        U, Ub = np.asarray(_raw(s.u)), np.asarray(_raw(s.u_best))
+        pairs = [(np.asarray(_raw(hu[i])), hy[i]) for i in range(it)] + [(polled["u"], polled["y"])]
+        out.tag = dict(fin=bool(R["is_finished"]), it=int(R["poll_iteration"]))
+        out.ob("noisy_incumbent_point_and_observation_belong_together",
+               O.Or(*[O.And(O.rows_eq(U, pu, 0.0), O.eq(s.yval, py, 0.0)) for pu, py in pairs]))
+        out.ob("noisy_incumbent_survives_next_iteration", O.rows_eq(U, Ub, 0.0))     # the loop head does self.u = self.u_best
+        rec_u, rec_y = np.asarray(_raw(H.get("u")[it])), H.get("yval")[it]
+        out.ob("recorded_point_and_observation_belong_together", O.And(O.rows_eq(rec_u, polled["u"], 0.0), O.eq(rec_y, polled["y"], 0.0)))
+        return out
